@@ -35,7 +35,7 @@ def prepare_kani_scratch(modules, keep=False):
     d, repo = scratch.make_scratch()
     scratch.append_crate_module(repo, "verif_stubs", open(os.path.join(VERIF, "contracts/kani/stubs.rs")).read())
     for m in modules:
-        scratch.append_child_module(repo, m.target, m.mod_name, m.text())
+        scratch.append_child_module(repo, m.target, m.mod_name, m.text(), pub=(m.key in ("log", "table")))
     kani.warm_target(repo)
     return d, repo
 
@@ -61,8 +61,9 @@ def run_check(prop, tier, keep=False, only=None, jobs=16):
         sel = [(m, h) for (m, h) in sel if any(k in h.name or k == h.unit for k in keys)]
     modules = []
     for m, _ in sel:
-        if m not in modules:
-            modules.append(m)
+        for dm in tuple(m.deps) + (m,):
+            if dm not in modules:
+                modules.append(dm)
 
     violations = []  # (obligation, harness, replay_path, has_input)
     known_hits = []
@@ -90,7 +91,7 @@ def run_check(prop, tier, keep=False, only=None, jobs=16):
             for cbmc_args, items in groups.items():
                 names = [m.full_name(h.name) for m, h in items]
                 res, log, compile_ok, wall, cmd = kani.run(
-                    repo, names, jobs=jobs, harness_timeout=cfg.get("harness_timeout", 900),
+                    repo, names, jobs=jobs, harness_timeout=cfg.get("harness_timeout", 420),
                     extra_flags=["--exact"], cbmc_args=cbmc_args,
                     log_prefix=os.path.join(d, "kani-%d" % len(cmds)))
                 cmds.append(" ".join(cmd[:14]) + " ... (%d harnesses)" % len(names))
